@@ -68,6 +68,10 @@ func c16(c *Ctx) {
 	r.Extra["census_accepted"] = a
 
 	// ---- R16.W: the loop must not wait for itself ------------------------------------------------
+	r.Rule("R16.O", "a solicited answer finds its waiter: the request's waiter is registered before the request is written (an rpc_result dispatched in between returns 'not found', which the loop's default arm turns into a panic — the listed finding — so the window must not exist)", 2)
+	c.registerBeforeWrite("R16.O")
+	r.Rule("R16.X", "no waiter channel is closed by the table or the receive path (a send on a closed channel panics in the receive goroutine)", 1)
+	c.noWaiterClose("R16.X")
 	r.Rule("R16.W", "the receive goroutine is registered in routineswg (Add/Done): nothing reachable from it may Wait on that group", 1)
 	{
 		tr2 := an.NewTracer()
